@@ -382,6 +382,13 @@ static int hdr_mode(const std::string& work, const std::string& outpath, int lev
 
 // ------------------------------------------------------------------------------------ part (c)
 struct RTItem { std::string registry, name; std::function<std::string()> run; };
+static std::vector<std::string> split_lines(const std::string& t) {
+  std::vector<std::string> out;
+  std::string cur;
+  for (char c : t) { if (c == '\n') { out.push_back(cur); cur.clear(); } else cur += c; }
+  if (!cur.empty()) out.push_back(cur);
+  return out;
+}
 
 template <class Root>
 static void add_registry(std::vector<RTItem>& items, const std::string& registry) {
@@ -415,7 +422,7 @@ static void add_registry(std::vector<RTItem>& items, const std::string& registry
                        }
                        std::cout.rdbuf(old_out);
                        return std::string("\"constructed\":") + (constructed ? "true" : "false") + ",\"parsed\":" + (parsed ? "true" : "false")
-                              + ",\"why\":" + c17::jstr(why.substr(0, 200)) + ",\"t1\":" + c17::jstr(t1) + ",\"t2\":" + c17::jstr(t2);
+                              + ",\"why\":" + c17::jstr(why.substr(0, 200)) + ",\"t1\":" + c17::jarr(split_lines(t1)) + ",\"t2\":" + c17::jarr(split_lines(t2));
                      } });
   }
 }
@@ -448,7 +455,7 @@ static int roundtrip(const std::string& outpath) {
   auto head = [&](long k) { return "{\"e\":\"RT\",\"registry\":" + c17::jstr(items[k].registry) + ",\"name\":" + c17::jstr(items[k].name) + ","; };
   auto item = [&](long k) { return head(k) + "\"abort\":\"\"," + items[k].run() + "}"; };
   auto dead = [&](long k, const std::string& kind) {
-    return head(k) + "\"abort\":" + c17::jstr(kind) + ",\"constructed\":false,\"parsed\":false,\"why\":\"\",\"t1\":\"\",\"t2\":\"\"}";
+    return head(k) + "\"abort\":" + c17::jstr(kind) + ",\"constructed\":false,\"parsed\":false,\"why\":\"\",\"t1\":[],\"t2\":[]}";
   };
   c17::run_guarded((long)items.size(), outpath, 3, item, dead);
   return 0;
